@@ -1,6 +1,7 @@
 // HIST world: cooperating clients drive one or more meshes against the reference model.
 // Everything OpenVolumeMesh runs is real code; the model and the batteries are oracles.
 #pragma once
+#include <array>
 #include <climits>
 #include <functional>
 #include <memory>
@@ -122,6 +123,7 @@ template <class Mesh> struct Rep {
     HalfEdgePropertyT<int> the; HalfFacePropertyT<int> thf;
     std::vector<MProp> props;                    // model ids index this
     bool ever_reenabled = false;
+    std::map<std::array<int, 3>, int> lat_v, lat_c;   // hex lattice: coordinate -> vertex uid / cell uid
     Rep() : mesh(new Mesh()), tv(mesh->template create_private_property<int, Entity::Vertex>("", -7)),
             te(mesh->template create_private_property<int, Entity::Edge>("", -7)),
             tf(mesh->template create_private_property<int, Entity::Face>("", -7)),
